@@ -55,6 +55,7 @@ def _reparse_raw_base(
     mode: Mode | None = None,
     first_lineno: int = 0,  # should only be non-zero if we wish to apply column delta to it
     first_line_col_delta: int = 0,
+    blkhead_end: tuple[int, int] | None = None,  # if only a block header is being reparsed then where its end (just past the ':') must be after the put
 ) -> fst.FST:
     """Actually do the reparse. If `mode` is `None` then will just try a normal `'exec'` parse and fail if that fails.
     Otherwise it will try this mode first, then all other parse modes as it is assumed to be a non-top-level
@@ -101,6 +102,7 @@ def _reparse_raw_base(
                 or copy_loc[:2] != self.loc[:2]
                 or not (re_empty_line_or_cont if root._lines[(bloc := self.bloc).end_ln][bloc.end_col:].strip() else
                         re_empty_line_cont_or_comment).match(copy_root._lines[copy_loc.end_ln], copy_loc.end_col)  # e.g. a new trailing semicolon which would belong to the parents, or a new comment which would swallow what follows the node on its line
+                or (blkhead_end and copy._loc_block_header_end()[2:] != blkhead_end)  # new source closed the header early and brought its own body (`a: b\nelse`), old body would not be where it is assumed to be
                 or (copya.__class__ is ExceptHandler and (parent := self.parent) and copy.parent.a.__class__ is not parent.a.__class__)  # `except` <-> `except*`, the other handlers have a say in that
             ):
                 raise NodeError('source change not limited to node')
@@ -291,8 +293,13 @@ def _reparse_raw_stmtlike(self: fst.FST, new_lines: list[str], ln: int, col: int
         elif stmtlike_cls is TryStar:  # ditto
             copy_lines.append(bistr(indent + 'except* Exception: pass'))
 
+    if pend_ln == end_ln:  # where the end of the block header will be after the put (the put ends before it)
+        blkhead_end = (ln + (dln := len(new_lines) - 1), pend_col - end_col + len(new_lines[-1]) + (0 if dln else col))
+    else:
+        blkhead_end = (pend_ln + len(new_lines) - 1 - end_ln + ln, pend_col)
+
     copy = _reparse_raw_base(stmtlike, new_lines, ln, col, end_ln, end_col, copy_lines, path, False, None,
-                             first_lineno, first_line_col_delta)
+                             first_lineno, first_line_col_delta, blkhead_end)
     copya = copy.a
 
     if not is_match_case:  # match_case doesn't have AST location
